@@ -830,6 +830,38 @@ def judge_negotiation(chk, flags, variant, line):
     chk.count("negotiation-" + variant)
 
 
+def history_scenarios():
+    """an aborted compression negotiation (offer, <compress/>, then <failure/> or a dead link) followed by a session on
+    the same object whose server does not offer zlib: no <compress/> request, no layer"""
+    out = []
+    for flags in (64, 65, 192):
+        for ending in ([rx(STREAM_END), "run", "run"], ["rxclose", "run", "run"], ["rxreset", "run", "run"]):
+            first = preamble(flags, "failure")
+            for cutoff in (0, 3):          # with and without the server's <failure/>
+                f = first[:len(first) - cutoff] if cutoff else first
+                second = preamble(flags, "no-offer")
+                second = second[second.index("connect client"):]
+                out.append((flags, f + ending + second + ["run 2"]))
+    return out
+
+
+def judge_history(chk, flags, cmds, line):
+    case = {"history": "aborted compression negotiation, then a server without zlib", "flags": flags}
+    extra = {"scenario": ";".join(cmds), "class": "negotiation", "label": "negotiation-history"}
+    chk.count("negotiation-history")
+    if line is None or line.startswith("CRASH") or "# " not in line:
+        chk.fail(case, "implementation: %s" % (line or "")[:200], extra=extra)
+        return
+    hooks, trace = line.split("# ", 1)
+    second = b"".join(bytes.fromhex(m.group(1)) for m in re.finditer(r"\b[WT]1:([0-9a-f]+)", trace))
+    if b"<?xml" not in second:
+        chk.fail(case, "the second session did not start (nothing written on the second socket)", extra=extra)
+    if T_COMPRESS.encode() in second:
+        chk.fail(case, "<compress/> requested in a session whose server did not offer compression (offer of the previous session remembered)", extra=extra)
+    if any(t[0] in "wndip" for t in hooks.split()):
+        chk.fail(case, "compression layer installed although no server confirmed it", extra=extra)
+
+
 # ----------------------------------------------------------------------------------------------
 def _private_copy(build, tag):
     d = os.path.join(vlib.BUILD, "c20-run")
@@ -1016,7 +1048,12 @@ def run(chk):
                 "buffer), one or several per iteration, under write schedules all / k<n> / again / err with interleaved iterations; inbound "
                 "stanzas (with ids) of 0..64 KiB delivered in chunks of 1 B..8 KiB and as one chunk (simworld deflates per chunk, the library "
                 "reads at most 4096 compressed bytes at a time), including compressed sizes just above 4096 (last read = rest of the flush "
-                "marker); mixed traffic; negotiation variants (no offer, unsolicited <compressed/>, <failure/>, compression not allowed). "
+                "marker); mixed traffic; negotiation variants (no offer, unsolicited <compressed/>, <failure/>, compression not allowed); "
+                "the server ending its deflate stream (simworld `rxfin`: last stanza + </stream:stream> deflated with Z_FINISH; everything must "
+                "be parsed and the disconnect must be a clean stream end); two and three sessions on ONE connection object without TLS "
+                "(flags 1+64, 64, 1+64+128; compressed/compressed, compressed/uncompressed, uncompressed/compressed, traffic both ways in "
+                "every session, judged per session by the same oracle + model comparison); an aborted compression negotiation followed by a "
+                "server without zlib on the same object. "
                 "Non-trivial = distinct scenario in which compressed bytes crossed the layer.")
     chk.assumptions = [
         "LEVEL partial: zlib's behaviour is a Section hypothesis (Spec/CompressionSpec.v zcontract: output decodes to a prefix of the "
@@ -1042,6 +1079,10 @@ def run(chk):
         for (f, v), l in zip(neg, lines):
             chk.evaluations += 1
             judge_negotiation(chk, f, v, l)
+        hist = history_scenarios()
+        for (f, cmds), l in zip(hist, vlib.run_lines(exe, [";".join(c) for _, c in hist])):
+            chk.evaluations += 1
+            judge_history(chk, f, cmds, l)
         evaluate(chk, gen_cases(chk), exe, mexe)
     finally:
         cleanup_private()
